@@ -16,6 +16,7 @@ import (
 	"go.uber.org/zap/zapcore"
 
 	"verifsim/core"
+	_ "verifsim/h/kvs"
 	_ "verifsim/h/pipe"
 	_ "verifsim/h/walq"
 )
@@ -64,6 +65,16 @@ func TestWorker(t *testing.T) {
 			}
 			fmt.Fprintln(w, core.MarshalLine(res))
 			w.Flush()
+			if ex, ok := h.(core.Expander); ok && res.Sig == "" && res.Anomaly == "" {
+				for _, p2 := range ex.Expand(plan, res) {
+					r2 := core.Execute(t, h, p2)
+					if r2.Sig != "" || r2.Anomaly != "" {
+						r2.Plan = p2
+					}
+					fmt.Fprintln(w, core.MarshalLine(r2))
+				}
+				w.Flush()
+			}
 		}
 	case "replay":
 		plan, err := core.LoadPlan(env("VERIF_REPLAY", ""))
